@@ -59,10 +59,19 @@ func (e *Environment) Get(name string) Object {
 }
 
 func (e *Environment) evalNameWithIndex(name string) []string {
+	return e.expandName(name, map[string]bool{})
+}
+
+// expandName splits the name and appends the expansion of every part that is an expression attribute name;
+// expanding tracks the names it is in the middle of expanding, so a name bound to itself (or to a cycle of
+// names) is expanded once instead of endlessly
+func (e *Environment) expandName(name string, expanding map[string]bool) []string {
 	names := strings.Split(name, ".")
 	for _, n := range names {
-		if alias, ok := e.Aliases[n]; ok {
-			names = append(names, e.evalNameWithIndex(alias)...)
+		if alias, ok := e.Aliases[n]; ok && !expanding[n] {
+			expanding[n] = true
+			names = append(names, e.expandName(alias, expanding)...)
+			delete(expanding, n)
 		}
 	}
 
